@@ -271,6 +271,32 @@ func judgeC09(hi *Hist) []*Violation {
 	return out
 }
 
+// afterBarWait checks "after Bar.Wait returns exactly one of the two holds": a back-to-back
+// Completed()/Aborted() read that was invoked after a Bar.Wait on the same bar had returned
+// must report exactly one of them.
+func afterBarWait(hi *Hist, prop string) *Violation {
+	waited := map[int]int{} // bar -> earliest return of a Bar.Wait
+	for _, op := range hi.Ops {
+		if op.Op.K == h.OpBarWait && op.Ret >= 0 {
+			if r, ok := waited[op.Op.Bar]; !ok || op.Ret < r {
+				waited[op.Op.Bar] = op.Ret
+			}
+		}
+	}
+	for _, op := range hi.Ops {
+		if (op.Op.K != h.OpPair && op.Op.K != h.OpPairAC) || op.Ret < 0 {
+			continue
+		}
+		if r, ok := waited[op.Op.Bar]; ok && op.Inv > r {
+			note("after_barwait_pairs")
+			if op.R != 1 && op.R != 2 {
+				return viol(prop, "after-bar-wait", "bar %d: Bar.Wait had returned (log %d), yet Completed()=%v and Aborted()=%v (log %d): exactly one must hold", op.Op.Bar, r, op.R&1 == 1, op.R&2 == 2, op.Inv)
+			}
+		}
+	}
+	return nil
+}
+
 // ---------------------------------------------------------------------------
 // C11: terminal state exclusive and stable
 
@@ -293,7 +319,19 @@ func genC11(r *Rand, tier string, i int) *h.Scenario {
 		pos := r.Intn(len(sc.Main) + 1)
 		sc.Main = append(sc.Main[:pos:pos], append([]h.Op{op}, sc.Main[pos:]...)...)
 	}
+	addWatchers(r, sc)
 	return sc
+}
+
+// addWatchers adds clients that wait for a bar and read its terminal state the moment Bar.Wait returns.
+func addWatchers(r *Rand, sc *h.Scenario) {
+	if len(sc.Initial) == 0 || !r.Bool(0.6) {
+		return
+	}
+	for n := r.Range(1, 2); n > 0; n-- {
+		b := sc.Initial[r.Intn(len(sc.Initial))]
+		sc.Clients = append(sc.Clients, []h.Op{{K: h.OpBarWait, Bar: b}, {K: []int{h.OpPair, h.OpPairAC}[r.Intn(2)], Bar: b}, {K: h.OpPair, Bar: b}})
+	}
 }
 
 func judgeC11(hi *Hist) []*Violation {
@@ -378,6 +416,9 @@ func judgeC11(hi *Hist) []*Violation {
 				aSeen = o.ret
 			}
 		}
+	}
+	if v := afterBarWait(hi, "C11"); v != nil && len(out) == 0 {
+		out = append(out, v)
 	}
 	// a bar ended only by cancellation or Shutdown is reported aborted
 	if cancelled(hi) {
